@@ -233,7 +233,7 @@ def build_harness(name, srcs, flags, compiler="g++", extra_hash=""):
             log += o
             ok = ok and p.returncode == 0
         if ok:
-            r = sh([compiler] + [f for f in flags if f.startswith("-fsanitize") or f in ("-pthread", "-g")] + objs + ["-o", out + ".tmp", "-ldl", "-pthread"])
+            r = sh([compiler] + [f for f in flags if f.startswith("-fsanitize") or f in ("-pthread", "-g", "-rdynamic")] + objs + ["-o", out + ".tmp", "-ldl", "-pthread"])
             log += r.stdout
             ok = r.returncode == 0
         shutil.rmtree(tmpd, ignore_errors=True)
